@@ -10,7 +10,7 @@ RULE = ("random multifurcating trees (3..16 tips, 40 in thorough; rooted/unroote
         "the tree | 0 | a random dyadic | -1 | larger than all; collapse by support likewise; collapse by depth with every "
         "kind of interval (min<=max, min>max, 0, 1, n/2, beyond n); resolve with a recorded rand stream}; removeRoot and "
         "removeTips false (the commands' defaults, exact-set oracle) and the other flag values (correspondence, same tips, "
-        "well-formed); non-trivial = the structure changed; distinct = distinct case text.  Boundaries: thresholds are also drawn from {a length (support) of the tree, that value +- 2^-30, +- 2^-40, the next float64 above / below it, 0 with tiny positive lengths (2^-30, 2^-40, 2^-52) put on inner branches, a negative value}; some inner branches get the threshold +- a tiny dyadic as length (support); depth intervals are drawn around the depths present in the tree (d-1, d, d+1).  All values are exactly representable float64 and compared exactly (rationals) by the model and the oracle")
+        "well-formed); resolve (and collapse, correspondence only) on trees with single-child inner nodes - above polytomies, chains, under the root, the shape Reroot() leaves behind - with the oracle: such nodes stay and none is created, every node ends with at most 3 neighbours, input splits and distances kept; non-trivial = the structure changed; distinct = distinct case text.  Boundaries: thresholds are also drawn from {a length (support) of the tree, that value +- 2^-30, +- 2^-40, the next float64 above / below it, 0 with tiny positive lengths (2^-30, 2^-40, 2^-52) put on inner branches, a negative value}; some inner branches get the threshold +- a tiny dyadic as length (support); depth intervals are drawn around the depths present in the tree (d-1, d, d+1).  All values are exactly representable float64 and compared exactly (rationals) by the model and the oracle")
 TRUSTED = ["tree built through NewNode/NewEdge + verif hooks (exact neighbour order); dump through Neigh()/Edges()/Left()/Right()"]
 ASSUMPTIONS = ["math/rand: Intn/Int31n/Perm transcribed in Model/Rand.v; the recorded Int63 stream is what Resolve consumes"]
 LEVEL_TEXT = "theorems in coq/Properties/C07.v about Model/Collapse.v; correspondence by exact structural equality with the Go result"
@@ -119,9 +119,69 @@ def nonfinite_cases(rng, g, t, flags):
                 "nonfinite": "sthreshold " + kind})
     return ops
 
+def insert_single(rng, g, x, i, k, lenmode):
+    """put k single-child inner nodes on the branch in slot i of node x"""
+    e, c = x["slots"][i]
+    for _ in range(k):
+        nd = {"name": rng.choice(["", "", "S%d" % rng.randrange(1000)]), "coms": [],
+              "slots": [None, ({"len": g.length(lenmode), "sup": None, "pv": None, "coms": []}, c)]}
+        if rng.random() < 0.3:
+            nd["slots"].reverse()
+        c = nd
+    x["slots"][i] = (e, c)
+
+def single_node_cases(rng, g, tier):
+    """resolve (and, for the correspondence, collapse) on trees WITH single-child inner nodes:
+    above polytomies, above tips, chains of them, directly under the root, and the shape Reroot()
+    leaves behind (the old two-child root hanging under the new root as a single-child node)"""
+    lenmode = rng.choice(["all", "all", "mixed", "none"])
+    t = g.tree(lo=5, hi=14, maxdeg=rng.choice([4, 5, 5, 7]), lenmode=lenmode,
+               supmode=rng.choice(["mixed", "all", "none"]), up_random=rng.random() < 0.5)
+    how = rng.choice(["above-poly", "above-poly", "random", "random", "rerooted", "root-child"])
+    sites = [(x, i, c) for x in preorder(t) for i, s in enumerate(x["slots"]) if s is not None for c in [s[1]]]
+    poly = [(x, i, c) for x, i, c in sites if len(c["slots"]) > 3]
+    done = 0
+    if how == "above-poly" and poly:
+        for x, i, c in rng.sample(poly, rng.randint(1, min(2, len(poly)))):
+            insert_single(rng, g, x, i, rng.choice([1, 1, 2, 3]), lenmode); done += 1
+    elif how == "root-child":
+        big = [(x, i, c) for x, i, c in sites if x is t and kids(c)]
+        for x, i, c in big[:rng.randint(1, 2)]:
+            insert_single(rng, g, x, i, rng.choice([1, 2]), lenmode); done += 1
+    elif how == "rerooted" and len(t["slots"]) == 2:
+        # new root = an inner child a of the root; the old root keeps its other child b only
+        ks = [(i, s) for i, s in enumerate(t["slots"])]
+        ia = next((i for i, s in ks if kids(s[1])), None)
+        if ia is not None:
+            (ea, a), (eb, b) = t["slots"][ia], t["slots"][1 - ia]
+            old = {"name": "", "coms": [], "slots": [None, (eb, b)]}
+            a["slots"] = [s for s in a["slots"] if s is not None] + [(ea, old)]
+            rng.shuffle(a["slots"])
+            t = a
+            done += 1
+    if not done or how == "random":
+        sites = [(x, i, c) for x in preorder(t) for i, s in enumerate(x["slots"]) if s is not None for c in [s[1]]]
+        for x, i, c in rng.sample(sites, rng.randint(1, min(3, len(sites)))):
+            insert_single(rng, g, x, i, rng.choice([1, 1, 2]), lenmode)
+    ntips = len(leaves(t))
+    nb = sum(len(kids(x)) for x in preorder(t) if len(x["slots"]) > 3)
+    ops = [{"op": Sym("resolve"), "tree": T(t), "seed": rng.randrange(1, 2**31), "nraw": 4 * nb + 16}]
+    if rng.random() < 0.5:
+        ops.append({"op": Sym("resolve"), "tree": T(t), "seed": rng.randrange(1, 2**31), "nraw": 4 * nb + 16})
+    if rng.random() < 0.4:
+        lens = edge_values(t, "len")
+        l = rng.choice(lens + [Fraction(0)]) if lens else Fraction(0)
+        ops.append({"op": Sym("collapse_len"), "tree": T(t), "l": l, "rr": rng.random() < 0.3, "rt": False})
+        ops.append({"op": Sym("collapse_depth"), "tree": T(t), "min": rng.choice([0, 1, 2]), "max": rng.choice([1, 2, 3, ntips]),
+                    "rr": rng.random() < 0.3, "rt": False})
+    return [{"sx": sx(o), "meta": {"op": o["op"].s, "ntips": ntips, "rooted": len(t["slots"]) == 2, "boundary": False,
+                                   "rr": bool(o.get("rr")), "rt": bool(o.get("rt")), "single": how}} for o in ops]
+
 def gen(rng, tier):
     g = Gen(rng)
     out = []
+    for _ in range({"quick": 150, "thorough": 2500, "search": 600}[tier]):
+        out += single_node_cases(rng, g, tier)
     n = {"quick": 260, "thorough": 5000, "search": 500}[tier]
     for _ in range(n):
         t = g.tree(lo=3, hi=16 if tier != "thorough" else 40, maxdeg=rng.choice([3, 4, 5, 7]),
